@@ -143,24 +143,93 @@ theorem init_top (hs : SqrtLaw ops) (v : Vec K n) (hv : fn v ⬝ᵥ fn v ≠ 0)
     rw [if_pos rfl, t00, t01, hq1, smul_smul, mul_inv_cancel₀ hb0, one_smul, hr]
     abel
 
+/-! ### the state returned when the first step already exhausts the budget / the Krylov space -/
+
+section init0
+variable (ops) (amul) (numIter) (v : Vec K n)
+
+theorem init0_Q0 : Qf (init0 ops amul numIter v).1 0 = (ops.sqrt (fn v ⬝ᵥ fn v))⁻¹ • fn v := by
+  simp [Qf, init0, norm, dot_eq]
+
+theorem init0_T (i j : Nat) :
+    Tf (init0 ops amul numIter v).1 i j =
+      if i = 0 ∧ j = 0 then Qf (init0 ops amul numIter v).1 0 ⬝ᵥ AQf amul (init0 ops amul numIter v).1 0
+      else 0 := by
+  simp [Tf, Qf, AQf, init0, dot_eq, Fam.const]
+
+theorem init0_tstruct : TStruct (init0 ops amul numIter v).1 := by
+  constructor
+  · intro i j
+    rw [init0_T, init0_T]
+    split_ifs <;> first | rfl | omega
+  · intro i j hij
+    rw [init0_T]
+    split_ifs <;> first | rfl | omega
+
+end init0
+
+theorem init0_done (hs : SqrtLaw ops) (v : Vec K n) (hv : fn v ⬝ᵥ fn v ≠ 0) :
+    Done amul 0 (init0 ops amul numIter v).1 := by
+  have hne : ops.sqrt (fn v ⬝ᵥ fn v) ≠ 0 := by
+    intro h0
+    have := hs.mul_self _ (dot_self_nonneg (fn v))
+    rw [h0, mul_zero] at this
+    exact hv this.symm
+  refine ⟨?_, ?_, ?_⟩
+  · intro i j hi hj
+    have hi0 : i = 0 := by omega
+    have hj0 : j = 0 := by omega
+    subst hi0; subst hj0
+    rw [init0_Q0]
+    simpa using unit_of_norm hs (fn v) hne
+  · intro j hj; omega
+  · rw [init0_T]; simp
+
 /-! ### summary for `lanczosTridiag` -/
 
 /-- View of a result as a loop state. -/
 def Out.st (o : Out K n) : St K n := { q := o.q, t := o.t, passes := o.passes }
 
-theorem lanczos_ok (hs : SqrtLaw ops) (hA : SelfAdj amul) (maxIter : Nat) (v : Vec K n)
-    (hv : fn v ⬝ᵥ fn v ≠ 0) (h2 : 2 ≤ min maxIter n) :
+/-- The loop branch (both versions of the code reach it with `2 ≤ num_iter`). -/
+theorem loop_branch_ok (hs : SqrtLaw ops) (hA : SelfAdj amul) (N : Nat) (v : Vec K n)
+    (hv : fn v ⬝ᵥ fn v ≠ 0) (h2 : 2 ≤ N) :
+    let r := loop ops p amul N (N - 1) 1 (init ops amul N v)
+    let o : Out K n := { count := r.1, q := r.2.q, t := r.2.t, passes := r.2.passes }
+    1 ≤ o.count ∧ o.count ≤ N ∧ TStruct o.st ∧ (BetaOK (o.count - 1) o.st → Done amul (o.count - 1) o.st) := by
+  have hf := loop_inv (p := p) (numIter := N) hs hA (N - 1) 1
+    (init ops amul N v) (by omega) le_rfl (init_tstruct ops amul _ v)
+    (fun _ => init_done hs v hv) (fun _ hb => init_top hs v hv hb)
+  exact ⟨hf.pos, hf.le, hf.tstruct, hf.done⟩
+
+/-- Code as it is now (`guardsSingle = true`): every call with a budget of at least one iteration succeeds. -/
+theorem lanczos_ok (hs : SqrtLaw ops) (hA : SelfAdj amul) (hg : p.guardsSingle = true) (maxIter : Nat)
+    (v : Vec K n) (hv : fn v ⬝ᵥ fn v ≠ 0) (h1 : 1 ≤ min maxIter n) :
     ∃ o, lanczosTridiag ops p amul maxIter v = .ok o ∧ 1 ≤ o.count ∧ o.count ≤ min maxIter n ∧
       TStruct o.st ∧ (BetaOK (o.count - 1) o.st → Done amul (o.count - 1) o.st) := by
-  have hf := loop_inv (p := p) (numIter := min maxIter n) hs hA (min maxIter n - 1) 1
-    (init ops amul (min maxIter n) v) (by omega) le_rfl (init_tstruct ops amul _ v)
-    (fun _ => init_done hs v hv) (fun _ hb => init_top hs v hv hb)
-  refine ⟨{ count := (loop ops p amul (min maxIter n) (min maxIter n - 1) 1 (init ops amul (min maxIter n) v)).1,
-             q := (loop ops p amul (min maxIter n) (min maxIter n - 1) 1 (init ops amul (min maxIter n) v)).2.q,
-             t := (loop ops p amul (min maxIter n) (min maxIter n - 1) 1 (init ops amul (min maxIter n) v)).2.t,
-             passes := (loop ops p amul (min maxIter n) (min maxIter n - 1) 1 (init ops amul (min maxIter n) v)).2.passes },
-    ?_, hf.pos, hf.le, hf.tstruct, hf.done⟩
+  by_cases hc : (decide (1 < min maxIter n) &&
+      ops.gt (ops.abs (init0 ops amul (min maxIter n) v).2.2) p.breakTol) = true
+  · have h2 : 2 ≤ min maxIter n := by
+      simp only [Bool.and_eq_true, decide_eq_true_eq] at hc
+      omega
+    have hb := loop_branch_ok (p := p) hs hA (min maxIter n) v hv h2
+    refine ⟨_, ?_, hb⟩
+    unfold lanczosTridiag
+    simp only [show ¬ min maxIter n = 0 by omega, if_false, hg, if_true, hc]
+  · refine ⟨{ count := 1, q := (init0 ops amul (min maxIter n) v).1.q, t := (init0 ops amul (min maxIter n) v).1.t,
+              passes := 0 }, ?_, le_rfl, h1, init0_tstruct ops amul _ v, fun _ => init0_done hs v hv⟩
+    unfold lanczosTridiag
+    simp only [show ¬ min maxIter n = 0 by omega, if_false, hg, if_true, hc]
+    rfl
+
+/-- The code before the fix of D14 (`guardsSingle = false`) needs a budget of two iterations. -/
+theorem lanczos_ok_before_fix (hs : SqrtLaw ops) (hA : SelfAdj amul) (hg : p.guardsSingle = false) (maxIter : Nat)
+    (v : Vec K n) (hv : fn v ⬝ᵥ fn v ≠ 0) (h2 : 2 ≤ min maxIter n) :
+    ∃ o, lanczosTridiag ops p amul maxIter v = .ok o ∧ 1 ≤ o.count ∧ o.count ≤ min maxIter n ∧
+      TStruct o.st ∧ (BetaOK (o.count - 1) o.st → Done amul (o.count - 1) o.st) := by
+  have hb := loop_branch_ok (p := p) hs hA (min maxIter n) v hv h2
+  refine ⟨_, ?_, hb⟩
   unfold lanczosTridiag
-  simp only [show ¬ min maxIter n = 0 by omega, show ¬ min maxIter n = 1 by omega, if_false]
+  simp only [show ¬ min maxIter n = 0 by omega, show ¬ min maxIter n = 1 by omega, if_false, hg]
+  rfl
 
 end LinOp.C09
